@@ -475,6 +475,30 @@ class Sim:
         self._switch(rec)
         return self._local_trace
 
+    def preempt_point(self, tag):
+        """A pre-emption candidate that is not a source line: a read of an instrumented shared attribute (two reads in
+        ONE expression cannot be split by line events).  Counted and decided exactly like a line event."""
+        if not self.tracing or self.killed:
+            return
+        rec = self.current
+        if rec is None or rec.real is not _rt.current_thread() or rec.is_driver:
+            return
+        self.steps += 1
+        n = self.line_events
+        self.line_events = n + 1
+        if self.abort_reason or not self._want_preempt():
+            return
+        others = [t for t in self.threads if t.state == READY and t is not rec]
+        if not others:
+            return
+        self.preemptions += 1
+        self.rec_pre.append(n)
+        self._swh.update(f"{rec.role}@{tag};".encode())
+        rec.state = READY
+        self.ready_seq += 1
+        rec.ready_seq = self.ready_seq
+        self._switch(rec)
+
     # ------------------------------------------------------------- lifecycle
     def shutdown(self):
         """Tear the run down: every parked thread unwinds with SimKilled."""
@@ -754,6 +778,22 @@ def sim_timer():
     """Replacement for timeit.default_timer bound into mysensors.task."""
     sim = CURRENT
     return sim.monotonic() if sim is not None else 1000.0
+
+
+def instrument_shared_attr(cls, name):
+    """Harness-side: make every READ of ``obj.<name>`` (obj an instance of cls) a pre-emption candidate."""
+    store = "_sim_shared_" + name
+
+    def getter(self):
+        sim = CURRENT
+        if sim is not None:
+            sim.preempt_point(f"{cls.__name__}.{name}")
+        return self.__dict__.get(store)
+
+    def setter(self, value):
+        self.__dict__[store] = value
+
+    setattr(cls, name, property(getter, setter))
 
 
 def activate(sim):
